@@ -6,6 +6,7 @@ import (
 	"bytes"
 	"fmt"
 	"math"
+	"runtime/debug"
 	"testing"
 
 	spec "github.com/basecomplextech/spec"
@@ -334,6 +335,9 @@ func agree(t ev.TB, b []byte, extraPrefix []byte, origin string) (bool, bool) {
 func catch(f func()) (panicked string) {
 	defer func() {
 		if r := recover(); r != nil {
+			if fromRapid(debug.Stack()) {
+				panic(r)
+			}
 			panicked = fmt.Sprint(r)
 		}
 	}()
